@@ -181,9 +181,12 @@ impl Monitor for C02 {
                         if ix.tag == "account_close" {
                             self.cov.probe("account_close_abandons_above_0_0001");
                         }
+                        // one share or more is a live position by every definition the program
+                        // has; below that it is "more than dust" (the recorded account_close finding)
+                        let whole = dust_a >= qi(1) || dust_l >= qi(1);
                         out.push(viol(
                             "C02",
-                            "abandoned_more_than_dust",
+                            if whole { "abandoned_a_live_position" } else { "abandoned_more_than_dust" },
                             ix.tag,
                             format!(
                                 "bank {bk}: abandoned asset value {} liability value {} (limit 1e-4)",
